@@ -648,6 +648,117 @@ fn op_tokens(req: &Value) -> Value {
     }
 }
 
+fn outcome_string(src: &str, opts: &Options, with_rq: bool) -> String {
+    let r = catch_unwind(AssertUnwindSafe(|| prqlc::compile(src, opts)));
+    let mut out = match r {
+        Ok(Ok(s)) => format!("OK:{s}"),
+        Ok(Err(e)) => format!("ERR:{}", errs_json(&e)),
+        Err(_) => {
+            let p = take_panic();
+            format!("PANIC:{}", p.get("loc").and_then(|v| v.as_str()).unwrap_or("?"))
+        }
+    };
+    if with_rq {
+        let r = catch_unwind(AssertUnwindSafe(|| {
+            prqlc::prql_to_pl(src).and_then(prqlc::pl_to_rq).and_then(|rq| prqlc::json::from_rq(&rq))
+        }));
+        match r {
+            Ok(Ok(j)) => out.push_str(&format!("\nRQ:{j}")),
+            Ok(Err(_)) => out.push_str("\nRQ:err"),
+            Err(_) => {
+                take_panic();
+                out.push_str("\nRQ:panic")
+            }
+        }
+        let r = catch_unwind(AssertUnwindSafe(|| prqlc::prql_to_pl(src).and_then(|pl| prqlc::pl_to_prql(&pl))));
+        match r {
+            Ok(Ok(j)) => out.push_str(&format!("\nFMT:{j}")),
+            Ok(Err(_)) => out.push_str("\nFMT:err"),
+            Err(_) => {
+                take_panic();
+                out.push_str("\nFMT:panic")
+            }
+        }
+    }
+    out
+}
+
+/// C11: T threads compile the same program list from a barrier; returns, per program,
+/// the distinct outcomes observed and how many calls overlapped in time.
+fn op_stress(req: &Value) -> Value {
+    use std::sync::{Arc, Barrier};
+    use std::time::Instant;
+    let srcs: Vec<String> = req
+        .get("srcs")
+        .and_then(|v| v.as_array())
+        .map(|a| a.iter().filter_map(|x| x.as_str().map(|s| s.to_string())).collect())
+        .unwrap_or_default();
+    let threads = req.get("threads").and_then(|v| v.as_u64()).unwrap_or(4) as usize;
+    let reps = req.get("reps").and_then(|v| v.as_u64()).unwrap_or(1) as usize;
+    let with_rq = req.get("rq").and_then(|v| v.as_bool()).unwrap_or(false);
+    let opts = match parse_options(req) {
+        Ok(o) => o,
+        Err(e) => return json!({"bad_target": e}),
+    };
+    let srcs = Arc::new(srcs);
+    let barrier = Arc::new(Barrier::new(threads));
+    let epoch = Instant::now();
+    let mut handles = vec![];
+    for t in 0..threads {
+        let srcs = srcs.clone();
+        let barrier = barrier.clone();
+        let opts = opts.clone();
+        handles.push(
+            std::thread::Builder::new()
+                .stack_size(16 << 20)
+                .spawn(move || {
+                    let mut out: Vec<(usize, String, u128, u128)> = vec![];
+                    barrier.wait();
+                    for rep in 0..reps {
+                        for k in 0..srcs.len() {
+                            // stagger the order per thread so different programs overlap
+                            let i = (k + t * 7 + rep) % srcs.len();
+                            let t0 = epoch.elapsed().as_nanos();
+                            let o = outcome_string(&srcs[i], &opts, with_rq);
+                            let t1 = epoch.elapsed().as_nanos();
+                            out.push((i, o, t0, t1));
+                        }
+                    }
+                    out
+                })
+                .unwrap(),
+        );
+    }
+    let mut per: Vec<Vec<String>> = vec![vec![]; srcs.len()];
+    let mut intervals: Vec<(u128, u128, usize)> = vec![];
+    let mut calls = 0u64;
+    for (t, h) in handles.into_iter().enumerate() {
+        if let Ok(v) = h.join() {
+            for (i, o, t0, t1) in v {
+                calls += 1;
+                if !per[i].contains(&o) {
+                    per[i].push(o);
+                }
+                intervals.push((t0, t1, t));
+            }
+        }
+    }
+    // count overlapping call pairs on different threads (sweep)
+    intervals.sort();
+    let mut overlapping = 0u64;
+    let mut active: Vec<(u128, usize)> = vec![];
+    for (t0, t1, th) in intervals {
+        active.retain(|(end, _)| *end > t0);
+        overlapping += active.iter().filter(|(_, a)| *a != th).count() as u64;
+        active.push((t1, th));
+    }
+    json!({
+        "calls": calls,
+        "overlapping_pairs": overlapping,
+        "outcomes": per,
+    })
+}
+
 fn handle(req: &Value, st: &mut State) -> Value {
     let op = req.get("op").and_then(|v| v.as_str()).unwrap_or("");
     match op {
@@ -674,6 +785,14 @@ fn handle(req: &Value, st: &mut State) -> Value {
         }
         "sqlparse" => op_sqlparse(req),
         "tokens" => op_tokens(req),
+        "stress" => op_stress(req),
+        "outcome" => {
+            let src = req.get("src").and_then(|v| v.as_str()).unwrap_or("");
+            match parse_options(req) {
+                Ok(o) => json!({"outcome": outcome_string(src, &o, req.get("rq").and_then(|v| v.as_bool()).unwrap_or(false))}),
+                Err(e) => json!({"bad_target": e}),
+            }
+        }
         "c17_enum" => c17::enumerate(req),
         "c17_batch" => c17::batch(req),
         "db_open" => {
